@@ -65,6 +65,9 @@ type Type struct {
 	B      *Type   `json:"b,omitempty"`
 	Fields []Field `json:"fields,omitempty"`
 	Name   string  `json:"name,omitempty"`
+	// Alias: another spelling of the same type in the schema text (Coins as
+	// "Grams"; MsgAddress as "MsgAddressInt", whose values are never addr_none).
+	Alias string `json:"alias,omitempty"`
 }
 
 type Field struct {
@@ -131,8 +134,14 @@ func (t Type) String() string {
 	case Bool:
 		return "Bool"
 	case Coins:
+		if t.Alias != "" {
+			return t.Alias
+		}
 		return "Coins"
 	case Addr:
+		if t.Alias != "" {
+			return t.Alias
+		}
 		return "MsgAddress"
 	case Cell:
 		return "Cell"
@@ -662,7 +671,7 @@ func (s *Schema) Random(r Rand, t Type) any {
 	case VarUInt:
 		return randBig(r, 8*r.Intn(t.N))
 	case Addr:
-		if r.Intn(3) == 0 {
+		if r.Intn(3) == 0 && t.Alias != "MsgAddressInt" {
 			return (*Address)(nil)
 		}
 		a := &Address{Workchain: int8(r.Intn(256))}
